@@ -216,6 +216,27 @@ int main(int argc, char **argv)
         check_state(R, z, fib, tot, "kat");
         rep().sample("kat", "\"state\":\"fibonacci 0,1,1,2,...\",\"expected0\":\"0x3095570037f4605d\"", 1);
     }
+    // ------------------------------------------------------------ related pairs for the two-state (AVX-512) permutation: state B is state A
+    // with its three 4-element blocks permuted / its twelve elements rotated -- a shortcut keyed on a relation between the two
+    // interleaved states (equal halves of the interleaved buffer, ...) must still treat them as two states
+    {
+        u64 A[12], B[12];
+        for (int base = 0; base < 2; base++)
+        {
+            for (int i = 0; i < 12; i++) A[i] = base ? ((0x9E3779B97F4A7C15ULL * (u64)(i + 1)) & MASK) % PR : (u64)(i / 4 + 1);
+            static const int perm[6][3] = {{0, 1, 2}, {0, 2, 1}, {1, 0, 2}, {1, 2, 0}, {2, 0, 1}, {2, 1, 0}};
+            for (int pi = 0; pi < 6; pi++)
+            {
+                for (int b = 0; b < 3; b++) for (int i = 0; i < 4; i++) B[4 * b + i] = A[4 * perm[pi][b] + i];
+                check_state(R, A, B, tot, "pair-blocks");
+            }
+            for (int rot = 1; rot < 12; rot++)
+            {
+                for (int i = 0; i < 12; i++) B[i] = A[(i + rot) % 12];
+                check_state(R, A, B, tot, "pair-rotation");
+            }
+        }
+    }
     // ------------------------------------------------------------ state enumeration
     std::vector<std::vector<u64>> bases;
     {
